@@ -649,3 +649,209 @@ func decodedAlwaysDispatched(p *engine.Program, rp *ssa.Function) (bool, string)
 	}
 	return true, ""
 }
+
+// evalPureIntPredicate interprets a small side-effect-free function of one integer parameter that
+// returns a bool (comparisons with constants, boolean connectives, branches, phis) for one
+// argument value. ok=false if the function uses anything else.
+func evalPureIntPredicate(fn *ssa.Function, arg int64) (result bool, ok bool) {
+	if len(fn.Params) != 1 || len(fn.Blocks) == 0 {
+		return false, false
+	}
+	vals := map[ssa.Value]interface{}{fn.Params[0]: arg}
+	get := func(v ssa.Value) (interface{}, bool) {
+		if c, isC := v.(*ssa.Const); isC {
+			if c.Value == nil {
+				return nil, false
+			}
+			if c.Value.Kind() == constant.Bool {
+				return constant.BoolVal(c.Value), true
+			}
+			if k, isI := constant.Int64Val(constant.ToInt(c.Value)); isI {
+				return k, true
+			}
+			return nil, false
+		}
+		x, have := vals[v]
+		return x, have
+	}
+	var prev *ssa.BasicBlock
+	b := fn.Blocks[0]
+	for steps := 0; steps < 200; steps++ {
+		for _, in := range b.Instrs {
+			switch x := in.(type) {
+			case *ssa.DebugRef:
+			case *ssa.Phi:
+				for i, p := range b.Preds {
+					if p == prev {
+						v, have := get(x.Edges[i])
+						if !have {
+							return false, false
+						}
+						vals[x] = v
+					}
+				}
+			case *ssa.BinOp:
+				l, ok1 := get(x.X)
+				r, ok2 := get(x.Y)
+				if !ok1 || !ok2 {
+					return false, false
+				}
+				li, lInt := l.(int64)
+				ri, rInt := r.(int64)
+				if !lInt || !rInt {
+					return false, false
+				}
+				switch x.Op {
+				case token.EQL:
+					vals[x] = li == ri
+				case token.NEQ:
+					vals[x] = li != ri
+				case token.LSS:
+					vals[x] = li < ri
+				case token.LEQ:
+					vals[x] = li <= ri
+				case token.GTR:
+					vals[x] = li > ri
+				case token.GEQ:
+					vals[x] = li >= ri
+				default:
+					return false, false
+				}
+			case *ssa.UnOp:
+				if x.Op != token.NOT {
+					return false, false
+				}
+				v, have := get(x.X)
+				bv, isB := v.(bool)
+				if !have || !isB {
+					return false, false
+				}
+				vals[x] = !bv
+			case *ssa.If:
+				v, have := get(x.Cond)
+				bv, isB := v.(bool)
+				if !have || !isB {
+					return false, false
+				}
+				prev = b
+				if bv {
+					b = b.Succs[0]
+				} else {
+					b = b.Succs[1]
+				}
+			case *ssa.Jump:
+				prev = b
+				b = b.Succs[0]
+			case *ssa.Return:
+				if len(x.Results) != 1 {
+					return false, false
+				}
+				v, have := get(x.Results[0])
+				bv, isB := v.(bool)
+				return bv, have && isB
+			default:
+				return false, false
+			}
+		}
+	}
+	return false, false
+}
+
+// noticeAlwaysPublished: handleUnreachable hands every decodable notice to the node broker —
+// assuming the decode succeeded, no return is reachable without Publish (no dedup, rate limit or filter).
+func noticeAlwaysPublished(p *engine.Program, hu *ssa.Function) (bool, string) {
+	var pubs []ssa.Instruction
+	for _, ci := range engine.CallsIn(hu) {
+		if o := engine.CalleeObj(ci.Common()); o != nil && o.Name() == "Publish" {
+			pubs = append(pubs, ci)
+		}
+	}
+	if len(pubs) == 0 {
+		return false, "handleUnreachable no longer publishes to the broker"
+	}
+	cut := engine.EdgeSet{}
+	for _, ci := range callsTo(hu, "encoding/json.Unmarshal") {
+		if c, ok := ci.(*ssa.Call); ok {
+			if e, tested := assumeSucceeds(hu, c); tested {
+				for k := range e {
+					cut[k] = true
+				}
+			}
+		}
+	}
+	if hit := engine.Reach(hu, nil, cut, func(in ssa.Instruction) bool { return isOneOf(in, pubs) }, func(in ssa.Instruction) bool { _, ok := in.(*ssa.Return); return ok }); hit != nil {
+		return false, "handleUnreachable can return at " + descInstr(p, hit) + " without publishing a notice it decoded (a duplicate filter or rate limit): a second socket or dial that sent to the same dead address never hears about it"
+	}
+	return true, ""
+}
+
+// brokerLossless: utils.Broker hands every published message to every current subscriber: the
+// per-subscriber send is a blocking select whose only other arm is the broker context, and
+// subscription channels are unbuffered (back-pressure instead of dropping).
+func brokerLossless(p *engine.Program) (bool, string) {
+	start := p.Func("(*utils.Broker).start")
+	sub := p.Func("(*utils.Broker).Subscribe")
+	if start == nil || sub == nil {
+		return false, "Broker.start / Subscribe not found"
+	}
+	nSend := 0
+	var walk func(fn *ssa.Function) string
+	walk = func(fn *ssa.Function) string {
+		for _, b := range fn.Blocks {
+			for _, in := range b.Instrs {
+				switch x := in.(type) {
+				case *ssa.Send:
+					if _, isIface := x.X.Type().Underlying().(*types.Interface); isIface {
+						nSend++
+					}
+				case *ssa.Select:
+					hasSend := false
+					for _, st := range x.States {
+						if st.Dir == types.SendOnly {
+							if _, isIface := st.Send.Type().Underlying().(*types.Interface); isIface {
+								hasSend = true
+							}
+						}
+					}
+					if !hasSend {
+						continue
+					}
+					nSend++
+					if !x.Blocking {
+						return "the delivery to a subscriber is a non-blocking send (default arm): messages are dropped when the subscriber is not ready"
+					}
+					for _, st := range x.States {
+						if st.Dir == types.RecvOnly {
+							c, isCall := engine.Unwrap(st.Chan).(*ssa.Call)
+							if !isCall || !c.Common().IsInvoke() || c.Common().Method.Name() != "Done" {
+								return "the delivery select has an arm other than the send and the broker context"
+							}
+						}
+					}
+				}
+			}
+		}
+		for _, an := range fn.AnonFuncs {
+			if w := walk(an); w != "" {
+				return w
+			}
+		}
+		return ""
+	}
+	if w := walk(start); w != "" {
+		return false, w
+	}
+	if nSend == 0 {
+		return false, "no delivery send found in Broker.start"
+	}
+	for _, b := range sub.Blocks {
+		for _, in := range b.Instrs {
+			if mk, ok := in.(*ssa.MakeChan); ok {
+				if k, isC := engine.ConstInt(mk.Size); !isC || k != 0 {
+					return false, "Subscribe hands out a buffered channel (with non-blocking delivery notices beyond the buffer are lost; with blocking delivery ordering/back-pressure assumptions change)"
+				}
+			}
+		}
+	}
+	return true, ""
+}
